@@ -144,6 +144,12 @@ def main() -> None:
     os.makedirs(job['scratch'], exist_ok=True)
     os.environ['HOME'] = job['scratch']
     os.environ['VERIF_SCRATCH'] = job['scratch']
+    # uuid4() is deterministic inside a World, so temporary file names made from it (proxy/common/pki.py) would
+    # collide between concurrently running workers: every worker gets its own temporary directory
+    import tempfile
+    os.makedirs(os.path.join(job['scratch'], 'tmp'), exist_ok=True)
+    os.environ['TMPDIR'] = os.path.join(job['scratch'], 'tmp')
+    tempfile.tempdir = None
     faulthandler.enable()
     sys.setrecursionlimit(10000)
     out: Dict[str, Any] = {'ok': False}
